@@ -174,6 +174,18 @@ AffWriteOK(e, call) ==
                                  /\ v.owner = e.val.owner /\ (v.state = "confirmed" \/ k = e.key)
                                  /\ v.bk \in BlockKeys /\ PoolOK(call, FirstAddr(st[v.bk].val.cidr)) }) <= Cap(call)
 
+\* C20, literal reading of "a host never holds more affine blocks than the configured cap": ALL confirmed claims
+\* of the host, also those in pools the current request may not use (AffWriteOK counts only the latter, which is
+\* what the code guarantees).  Reported on the soft channel (see KvApply).
+ConfirmedOf(owner, e) ==
+    Cardinality({ k \in AffKeys \cup {e.key} :
+                     LET v == IF k = e.key THEN e.val ELSE st[k].val IN v.owner = owner /\ (v.state = "confirmed" \/ k = e.key) })
+CapExceededLiterally(e) ==
+    /\ e.inj = "" /\ e.err = "" /\ e.kind = "aff" /\ e.op = "update" /\ e.val.state = "confirmed"
+    /\ env.mode = "seq" /\ env.cfg.maxb > 0
+    /\ e.c \in DOMAIN calls /\ calls[e.c].op = "assign" /\ e.key \in calls[e.c].tried
+    /\ ConfirmedOf(e.val.owner, e) > env.cfg.maxb
+
 HandleWriteOK(e, call) == e.op \in {"update", "delete"} => ReadAt(e.c, e.key, e.rev)
 
 \* ---- the judgement of one recorded store call -----------------------------------------------------------
@@ -225,6 +237,7 @@ KvApply(e) ==
                                      !.seenUn = @ \cup (IF wr /\ x.op = "release" THEN { x.opts[i].ip : i \in DOMAIN x.opts } \ allocNow ELSE {})]
                       ELSE [x EXCEPT !.excl = @ /\ ~wr,
                                      !.seenUn = @ \cup (IF wr /\ x.op = "release" THEN { x.opts[i].ip : i \in DOMAIN x.opts } \ allocNow ELSE {})]]
+    /\ IF CapExceededLiterally(e) THEN PrintT(<<"SOFT", "block-cap", e.t, {<<e.val.owner, e.key, ConfirmedOf(e.val.owner, e), env.cfg.maxb>>}>>) ELSE TRUE
     /\ now' = e.now
     /\ taint' = (taint \/ e.inj = "error")
     /\ UNCHANGED <<env, caps>>
